@@ -733,6 +733,59 @@ root(void *arg)
     mc_explore(&H, c->depth, c->dev);
 }
 
+/* ids of one file handed to a two-id call together with an id of ANOTHER open file: they designate objects of a different
+   file and must be refused (Vinsert is the call of the interfaces that takes two object ids) */
+#define PATH2 "/vmem/c13_other.hdf"
+static void
+crossfile_case(long idx, void *ctx)
+{
+    (void)ctx;
+    int elem = (int)(idx % 2), dir = (int)(idx / 2 % 2), pmode = (int)(idx / 4 % 2);
+    int cfg[4] = {-2, elem, dir, pmode};
+    mc_set_config(cfg, 4, "family=two files");
+    mc_set_case("Vinsert(vgroup of file %s, %s of file %s)%s", dir ? "B" : "A", elem ? "Vdata" : "Vgroup", dir ? "A" : "B", pmode ? ", both files also hold a same-numbered object" : "");
+    if (prologue())
+        return;
+    vfs_copy(PATH, PATH2);
+    int32 fa = Hopen(dir ? PATH2 : PATH, DFACC_RDWR, 0), fb = Hopen(dir ? PATH : PATH2, DFACC_RDWR, 0);
+    if (fa == FAIL || fb == FAIL || Vstart(fa) == FAIL || Vstart(fb) == FAIL) {
+        mc_harness_error("cannot open the two files");
+        return;
+    }
+    int32 parent = Vattach(fa, g_refs[0], "w");
+    int32 other  = elem ? VSattach(fb, g_refs[2 + pmode], "r") : Vattach(fb, g_refs[1], "r");
+    int32 same   = elem ? VSattach(fa, g_refs[2], "r") : Vattach(fa, g_refs[1], "r");
+    int32 n0     = Vntagrefs(parent);
+    if (parent == FAIL || other == FAIL || same == FAIL) {
+        mc_harness_error("cannot attach the objects");
+        return;
+    }
+    int32 rc = Vinsert(parent, other);
+    if (rc != FAIL)
+        mc_violation(elem ? "foreign-file-id-accepted:Vinsert:vdata" : "foreign-file-id-accepted:Vinsert:vgroup",
+                     "Vinsert accepted the id of a %s that belongs to another open file (returned %d)", elem ? "Vdata" : "Vgroup", (int)rc);
+    else if (Vntagrefs(parent) != n0)
+        mc_violation("refused-call-changed-state:Vinsert", "Vinsert refused the foreign id but the parent now has %d members instead of %d", (int)Vntagrefs(parent), (int)n0);
+    /* control: the same kind of object of the parent's own file is accepted */
+    rc = Vinsert(parent, same);
+    if (rc == FAIL)
+        mc_violation("legal-call-refused:Vinsert", "Vinsert refused an object of the parent's own file");
+    if (elem) {
+        VSdetach(other);
+        VSdetach(same);
+    }
+    else {
+        Vdetach(other);
+        Vdetach(same);
+    }
+    Vdetach(parent);
+    Vend(fa);
+    Vend(fb);
+    if (Hclose(fa) == FAIL || Hclose(fb) == FAIL)
+        mc_violation("close-failed:two-files", "closing the two files failed");
+    mc_count("crossfile_cases", 1);
+}
+
 int
 C13_main(const char *tier, const char *replay)
 {
@@ -746,6 +799,10 @@ C13_main(const char *tier, const char *replay)
         mc_op ops[MC_MAXDEPTH];
         if (mc_load_replay(replay, cfg, &ncfg, ops, &nops, MC_MAXDEPTH) || ncfg < 1)
             return 2;
+        if (cfg[0] == -2) {
+            crossfile_case(cfg[1] + 2 * cfg[2] + 4 * cfg[3], NULL);
+            return 0;
+        }
         mc_set_config(cfg, 1, "family=%s", FAMN[cfg[0]]);
         printf("replay C13: family %s, %d ops\n", FAMN[cfg[0]], nops);
         if (setup(cfg[0]))
@@ -770,5 +827,8 @@ C13_main(const char *tier, const char *replay)
         if (mc_deadline_hit())
             break;
     }
+    mc_round_begin("ids of two open files in one call");
+    mc_foreach(8, crossfile_case, NULL, 1, 120);
+    mc_round_end();
     return 0;
 }
